@@ -20,7 +20,7 @@ Copyright 2016--2023 Michael Hayes, UCECE
 # Add exp(-pi*(a * (t-tau))**2)
 
 from sympy.core.function import AppliedUndef
-from sympy import sympify, pi, exp, I, oo, S, sign, sin, cos, sinh, cosh, tanh, im
+from sympy import sympify, pi, exp, I, oo, S, sign, sin, cos, sinh, cosh, tanh, im, re
 from sympy import DiracDelta, Heaviside, FourierTransform, Integral
 from sympy import fourier_transform as sympy_fourier_transform, Function
 from .sym import symsimplify, j
@@ -90,7 +90,12 @@ class FourierTransformer(BilateralForwardTransformer):
 
         if (expr2.is_Function and
                 expr2.args[0] == t - var and limits[0] == 0 and limits[1] == oo):
-            return const2 * self.term(expr2.subs(t - var, t), t, f) / f
+            # Convolution with the unit step,
+            # u(t) <--> 1 / (j * 2 * pi * f) + delta(f) / 2
+            sf = -f if self.is_inverse else f
+            Q = self.term(expr2.subs(t - var, t), t, f)
+            return const2 * (Q / (I * 2 * pi * sf) +
+                             Q.subs(f, 0) * DiracDelta(f) / 2)
 
         # Look for convolution integral
         # TODO, handle convolution with causal functions.
@@ -244,6 +249,9 @@ class FourierTransformer(BilateralForwardTransformer):
                 foo = other.args[1].args[0]
                 c0 = foo.coeff(t, 0)
                 c1 = foo.coeff(t, 1)
+                if re(c1).is_nonnegative:
+                    # The integral only converges for a decaying exponential.
+                    self.error('Exponential does not decay')
                 return const1 * exp(c0) / (I * 2 * pi * sf - c1)
             elif other.is_Function and other.func == sincn and other.args[0] == t:
                 return const1 * rect(f)
